@@ -185,7 +185,10 @@ def check(prog, run):
             # prefix elsewhere in the string and the empty string are not
             near = {"sgio": ["/dev", "dev/", "/de", "/", "", "ev/", "/devx/sg1", "x/dev/sg1", "iscsi://h/t/0", "/DEV/sg1"],
                     "iscsi": ["iscsi:/", "iscsi:", "iscsi", "scsi://h/t/0", "://", "", "/dev/sg1", "xiscsi://h/t/0", "ISCSI://h/t/0"]}[b]
-            for dev in [good, "bogus://x"] + near:
+            # without the binding nothing is a device this transport can serve, whatever the caller passes (a file descriptor,
+            # None ...): the refusal does not depend on being able to look into the argument
+            odd = [3, None] if b in missing else []
+            for dev in [good, "bogus://x"] + near + odd:
                 si = StandIn(p2).install()
                 try:
                     ps = I2.explore(lambda dev=dev: I2.instantiate(cls, [dev], {}, None, _F()), max_paths=32)
